@@ -192,7 +192,8 @@ def choices(r, bud, env):
                 if k in seen or e["id"] in ("noop", "fail", "continue"):
                     continue
                 seen.add(k)
-                if e.get("status") in ("failed", "timeout", "abandoned"):
+                if e.get("status") in ("failed", "timeout", "abandoned") or (
+                        env.get("rerun_tasks") == "all" and e.get("status") == "succeeded"):
                     out.append(["rerun", [[e["id"], e["route"], 0]]])
                     if r.d["tasks"].get(e["id"], {}).get("items", -1) > 0:
                         out.append(["rerun", [[e["id"], e["route"], 1]]])
@@ -247,6 +248,12 @@ def explore(d, env=None, lang="yaql", form=0, tok="task", rng=None, inputs=None)
                 c = r.clone()
                 c.req(s)
                 tree.add(node, c.steps[-1], ["probe", s])
+        if env.get("probe_rerun"):
+            recs = [(e["id"], e["route"]) for e in r.c.workflow_state.sequence if e["id"] in r.d["tasks"]]
+            for req in [[]] + [[[t, rt, 0]] for t, rt in recs[:2]] + [[["no_such_task", 0, 0]]]:
+                c = r.clone()
+                c.rerun(req)
+                tree.add(node, c.steps[-1], ["probe_rerun", req])
         chs = choices(r, bud, env)
         if not chs:
             tree.leaves += 1
